@@ -155,8 +155,48 @@ def boundary_aliases(prog, out=None):
     return out
 
 
+SHADOWED = [set()]
+
+
+def shadowed_names(spec):
+    """Value names that are PRIVATE to some nested graph (produced inside, hidden from the parent by its selection) and
+    are also produced by a node outside that nested graph."""
+    out = set()
+
+    def produced_in(prog):
+        names = set()
+        for ns in prog["nodes"]:
+            if ns["k"] == "sub":
+                names |= produced_in(ns["prog"])
+            names |= {e for _, e in ref.node_outputs(ns)}
+        return names
+
+    def walk(prog, outside):
+        for ns in prog["nodes"]:
+            if ns["k"] != "sub":
+                continue
+            inner = ns["prog"]
+            others = set(outside)
+            for o in prog["nodes"]:
+                if o is not ns:
+                    others |= {e for _, e in ref.node_outputs(o)}
+                    if o["k"] == "sub":
+                        others |= produced_in(o["prog"])
+            if inner.get("select"):
+                hidden = {e for x in inner["nodes"] for e in ref.data_output_names(x)} - set(inner["select"])
+                out.update(hidden & others)
+            walk(inner, others)
+
+    walk(spec, set())
+    return out
+
+
 def classify_missing(dep, state, ids, edges_nn):
     s, t, kind, value, cont, nonfirst = dep
+    if value in SHADOWED[0]:
+        # the value's name is also the name of a value private to another container: the renderer's global
+        # name -> producer table points at that other container's node
+        return "private-name-shadows-exposed-output"
     if value in ALIASES[0] and (any(state.get(a, False) for a in ancestors_or_self(s)[:-1]) or any(state.get(a, False) for a in ancestors_or_self(t)[:-1])):
         # a wrapper renamed this value at its boundary and is expanded: the re-routing into the
         # container looks the value up by its outer name and does not find the inner node
@@ -180,6 +220,8 @@ ALIASES = [set()]
 
 
 def classify_spurious(a, b, value, src_value, state):
+    if value in SHADOWED[0] or src_value in SHADOWED[0]:
+        return ":private-name-shadows-exposed-output"
     if value in ALIASES[0]:
         return ":renamed-boundary-name-of-expanded-container"
     if src_value and value and src_value != value and (src_value in value or value in src_value):
@@ -380,13 +422,25 @@ def check_flat(ctx, spec, g, ids, deps, case):
 # Mermaid
 # ---------------------------------------------------------------------------
 
+class _CountingSet(set):
+    """A set that also counts how often each element was added (declarations per node id)."""
+
+    def __init__(self, counts=None):
+        super().__init__()
+        self.counts = counts if counts is not None else {}
+
+    def add(self, x):
+        self.counts[x] = self.counts.get(x, 0) + 1
+        super().add(x)
+
+
 EDGE_RE = re.compile(r"^\s*([A-Za-z0-9_]+)\s*(-->|-\.->|==>|-\.-|---)\s*(?:\|[^|]*\|\s*)?([A-Za-z0-9_]+)\s*$")
 NODE_RE = re.compile(r"^\s*([A-Za-z0-9_]+)\s*[\[\(\{>]")
 SUB_RE = re.compile(r"^\s*subgraph\s+([A-Za-z0-9_]+)")
 
 
-def parse_mermaid(src):
-    declared, edges = set(), []
+def parse_mermaid(src, counts=None):
+    declared, edges = _CountingSet(counts), []
     for line in src.splitlines():
         line = line.split("%%")[0].rstrip()
         if not line.strip() or line.strip().startswith(("flowchart", "graph ", "classDef", "class ", "style ", "linkStyle", "end", "direction")):
@@ -423,6 +477,10 @@ def check_mermaid(ctx, spec, g, deps, ids, case, max_depth):
             ctx.obs["mermaid_checked"] += 1
             declared, edges = parse_mermaid(src)
             c2 = {**case, "mermaid_depth": d, "separate_outputs": sep}
+            twice = sorted(k for k, v in declared.counts.items() if v > 1)
+            ctx.obs["mermaid_declarations_counted"] += len(declared.counts)
+            if twice:
+                ctx.violation("C20:mermaid-node-declared-twice", f"depth {d} (separate_outputs={sep}): declared more than once in the Mermaid source: {twice[:6]}", c2)
             for a, b, _ in edges:
                 for end in (a, b):
                     if end not in declared:
@@ -536,6 +594,31 @@ def same_graph_twice(rng):
     return inner
 
 
+def shadowed_substring_specs():
+    """Directed shapes: one container keeps a PRIVATE value (hidden from the parent by its selection) whose name another
+    container exposes as a real output - next to a second exposed output whose name merely contains / extends that name
+    (score_raw / score, in both listing orders). The edge that leaves the second container carries the value of the
+    node that really produces it."""
+    out = []
+    for raw_first in (True, False):
+        for raw_name in ("score_raw", "sc", "xscore"):
+            screen = {"name": "screen", "nodes": [
+                {"k": "fn", "name": "draft_score", "params": [{"n": "text"}], "outs": ["score"]},
+                {"k": "fn", "name": "threshold", "params": [{"n": "score"}], "outs": ["keep"]},
+            ], "bind": {}, "select": ["keep"]}
+            rate = {"k": "fn", "name": "rate", "params": [{"n": "text"}], "outs": [raw_name]}
+            calibrate = {"k": "fn", "name": "calibrate", "params": [{"n": "keep"}], "outs": ["score"]}
+            rank = {"name": "rank", "nodes": [rate, calibrate] if raw_first else [calibrate, rate], "bind": {}}
+            outer = {"name": "outer", "nodes": [
+                {"k": "sub", "name": "screen", "prog": screen},
+                {"k": "sub", "name": "rank", "prog": rank},
+                {"k": "fn", "name": "publish", "params": [{"n": "score"}], "outs": ["post"]},
+                {"k": "fn", "name": "audit", "params": [{"n": raw_name}], "outs": ["log"]},
+            ], "bind": {}}
+            out.append(outer)
+    return out
+
+
 def run(ctx):
     n = 150 if ctx.tier == "quick" else 9000
     core.WARM_P = 0.0
@@ -547,6 +630,7 @@ def run(ctx):
         ids = all_ids(spec)
         deps = deps_of(spec)
         ALIASES[0] = boundary_aliases(spec)
+        SHADOWED[0] = shadowed_names(spec)
         check_flat(ctx, spec, g, ids, deps, c)
         check_interactive(ctx, spec, g, deps, ids, c)
         ctx.case("r1")
@@ -567,8 +651,9 @@ def run(ctx):
         if (f"{inst}/clean", f"{inst}/tokenize") not in set(flat.edges()):
             ctx.violation("C20:flat-inner-edge-missing", f"the same Graph nested twice: instance {inst} lacks its inner edge clean -> tokenize in to_flat_graph()", {"program": "same graph nested twice"})
     ctx.case({"directed": "same-graph-twice"}, True)
-    for i in range(n):
-        spec = gen_viz_graph(ctx.rng)
+    directed = shadowed_substring_specs() if ctx.shard[0] == 0 else []
+    for i in range(n + len(directed)):
+        spec = directed[i - n] if i >= n else gen_viz_graph(ctx.rng)
         rt.reset_program()
         try:
             g = build_program(spec).graph
@@ -578,6 +663,7 @@ def run(ctx):
         ids = all_ids(spec)
         deps = deps_of(spec)
         ALIASES[0] = boundary_aliases(spec)
+        SHADOWED[0] = shadowed_names(spec)
         case = {"spec": spec}
         check_flat(ctx, spec, g, ids, deps, case)
         k = check_interactive(ctx, spec, g, deps, ids, case)
